@@ -144,13 +144,19 @@ def op_join(ctx, rng):
     check_same(ctx, "join", [sep] + regs, before)
 
 
-def op_div(ctx, rng):
+def op_div(ctx, rng, big=False):
     fmt = rand_fmt(rng)
-    a = mk(rng, fmt, n=rng.randint(1, 30))
+    a = mk(rng, fmt, n=(rng.choice((700, 1500, 5000)) + rng.randint(0, 40)) if big else rng.randint(1, 30))
     before = [snap(a)]
     bps = fmt[1] * fmt[2]
     ln = len(before[0][0]) // bps
-    for n in list(range(1, ln + 4)) + [10 ** 6, 2 ** 64, 2 ** 64 + 1, 10 ** 30]:
+    if big:
+        # one second of audio cut into a thousand pieces: many pieces of a long region (not only every n of a tiny one)
+        ctx.count("op_div_into_hundreds_of_pieces")
+        ns = [745, 999, 1000, 1024, ln - 1, ln, ln + 1, rng.randint(300, ln)]
+    else:
+        ns = list(range(1, ln + 4)) + [10 ** 6, 2 ** 64, 2 ** 64 + 1, 10 ** 30]
+    for n in ns:
         case = {"op": "div", "a": desc(a), "n": n}
         ctx.case(repr(case), True)
         ctx.count("op_div")
@@ -477,6 +483,9 @@ def run_shard(ctx, upto=None):
     rng = ctx.rng("ops")
     for i in range(conf["random"] if upto is None else upto + 1):
         op = OPS[i % len(OPS)]
+        if i % 40 == 31:
+            op = lambda c_, r_: op_div(c_, r_, big=True)  # noqa: E731
+            op.__name__ = "op_div_big"
         if i % 40 == 7:
             op = op_join_many
         elif i % 40 == 23:
@@ -502,6 +511,6 @@ def replay(ctx, case):
 
 def inconclusive(merged, tier):
     c = merged["counters"]
-    need = ["op_add", "op_sum", "op_mul", "op_join", "op_join_many", "op_join_temporaries", "op_div", "op_div_n_greater_than_len", "op_mismatch", "parameter_errors_observed",
+    need = ["op_add", "op_sum", "op_mul", "op_join", "op_join_many", "op_join_temporaries", "op_div_into_hundreds_of_pieces", "op_div", "op_div_n_greater_than_len", "op_mismatch", "parameter_errors_observed",
             "op_eq", "op_make_silence", "op_construct_partial", "op_assignment", "op_tree", "optimised_interpreter_runs", "checksum_colliding_pairs_compared", "op_div_repeated_after_caller_mutated_result", "repo_tests_region_equalities_checked"]
     return [f"monitor never observed {k}" for k in need if c.get(k, 0) == 0]
